@@ -362,6 +362,54 @@ func c16_2(c *core.Ctx, p *core.Prog) {
 			}
 		}
 	}
+	// helpers that return a window of a slice they are handed (a generic `rng(all, lo, hi)`): their
+	// result aliases a package-level table when that parameter's argument is the table
+	windowOfParam := map[*ssa.Function]map[int]bool{}
+	for _, fn := range fns {
+		for _, r := range core.Returns(fn) {
+			for _, res := range r.Results {
+				if _, isSl := res.Type().Underlying().(*types.Slice); !isSl {
+					continue
+				}
+				core.BackSlice(res, func(x ssa.Value) bool {
+					if sl, ok := x.(*ssa.Slice); ok {
+						if prm, ok := core.Strip(sl.X).(*ssa.Parameter); ok {
+							for k, q := range fn.Params {
+								if q == prm {
+									if windowOfParam[fn] == nil {
+										windowOfParam[fn] = map[int]bool{}
+									}
+									windowOfParam[fn][k] = true
+								}
+							}
+						}
+					}
+					if prm, ok := x.(*ssa.Parameter); ok && x == core.Strip(res) {
+						for k, q := range fn.Params {
+							if q == prm {
+								if windowOfParam[fn] == nil {
+									windowOfParam[fn] = map[int]bool{}
+								}
+								windowOfParam[fn][k] = true
+							}
+						}
+					}
+					return true
+				})
+			}
+		}
+	}
+	isGlobalSlice := func(v ssa.Value) bool {
+		if sliceOfGlobal(v) {
+			return true
+		}
+		ld, ok := core.Strip(v).(*ssa.UnOp)
+		if !ok || ld.Op != token.MUL {
+			return false
+		}
+		_, isG := ld.X.(*ssa.Global)
+		return isG
+	}
 	tainted := map[*types.Var]string{}
 	for _, fn := range fns {
 		core.EachInstr(fn, func(i ssa.Instruction) {
@@ -379,6 +427,13 @@ func c16_2(c *core.Ctx, p *core.Prog) {
 			from := sliceOfGlobal(s.Val)
 			if cl, ok := s.Val.(*ssa.Call); ok && helper[cl.Call.StaticCallee()] {
 				from = true
+			}
+			if cl, ok := s.Val.(*ssa.Call); ok && cl.Call.StaticCallee() != nil {
+				for k := range windowOfParam[cl.Call.StaticCallee()] {
+					if k < len(cl.Call.Args) && isGlobalSlice(cl.Call.Args[k]) {
+						from = true
+					}
+				}
 			}
 			if from {
 				tainted[core.FieldVar(fa)] = p.Pos(s.Pos())
